@@ -19,7 +19,7 @@ from .choices import Choices, derive_seed
 from .errors import HarnessError, HarnessTimeout
 
 VERIF = os.path.dirname(os.path.dirname(os.path.abspath(__file__)))
-RUN_TIMEOUT = int(os.environ.get("VERIF_RUN_TIMEOUT", "90"))
+RUN_TIMEOUT = int(os.environ.get("VERIF_RUN_TIMEOUT", "150"))
 
 
 # --------------------------------------------------------------------------
